@@ -411,11 +411,16 @@ func (c *coord) checkIdleScan(r *engine.Report, fn *ssa.Function) {
 						continue
 					}
 					var dur, lim ssa.Value
+					negated := false // the comparison is written as its negation ("idle <= max: stop")
 					switch cmp.Op {
 					case token.GTR:
 						dur, lim = cmp.X, cmp.Y
 					case token.LSS:
 						dur, lim = cmp.Y, cmp.X
+					case token.LEQ:
+						dur, lim, negated = cmp.X, cmp.Y, true
+					case token.GEQ:
+						dur, lim, negated = cmp.Y, cmp.X, true
 					default:
 						continue
 					}
@@ -436,7 +441,11 @@ func (c *coord) checkIdleScan(r *engine.Report, fn *ssa.Function) {
 					if !isSub && !isSince {
 						continue
 					}
-					if ok, _ := fi.Implies(bo.Block(), fi.Cond(cmp)); ok {
+					want := fi.Cond(cmp)
+					if negated {
+						want = engine.Not(want)
+					}
+					if ok, _ := fi.Implies(bo.Block(), want); ok {
 						idleOK = true
 					}
 				}
